@@ -2,7 +2,7 @@
 import z3
 
 from .program import Unsupported
-from .state import PAYLOAD_VT, VT, CatchFrame, FnPtrV, Frame, PathEnd, Ptr
+from .state import PAYLOAD_VT, VT, CatchFrame, FnPtrV, Frame, PathEnd, Ptr, ThreadFrame
 from . import interp as I
 
 
@@ -84,6 +84,18 @@ def verif_event(it, st, fn, args, dest, target):
     if code == 100:
         it.stats["raw_ops"] += 1
     it.ret_blob(st, dest, target, [])
+
+
+def verif_on_thread(it, st, fn, args, dest, target):
+    t = it.concretize(st, _scalar(it, st, args[0], 4))
+    f = _scalar(it, st, args[1], 8)
+    if not isinstance(f, FnPtrV):
+        raise Unsupported("on_thread with non-function pointer")
+    st.frames.append(ThreadFrame(st.thread, dest, target))
+    # every call is a freshly spawned thread (own thread-locals), as natively
+    st.thread_counter = getattr(st, "thread_counter", 0) + 1
+    st.thread = 100 * t + st.thread_counter
+    it.push_frame(st, f.fn, [], None, None)
 
 
 def verif_fatal(it, st, fn, args, dest, target):
@@ -401,6 +413,7 @@ def register(it):
     s[p + "verif_check"] = verif_check
     s[p + "verif_event"] = verif_event
     s[p + "verif_fatal"] = verif_fatal
+    s[p + "verif_on_thread"] = verif_on_thread
     s[p + "verif_panic"] = verif_panic
     for n in ("core::panicking::panic", "core::panicking::panic_fmt", "core::panicking::panic_bounds_check",
               "core::panicking::panic_explicit", "core::panicking::unreachable_display",
